@@ -202,7 +202,7 @@ theorem C01_compose_slice_t2 (s : State α) (ts : List (TurnIn α × Oracles α)
   obtain ⟨s', t, hg', _, rfl⟩ := mem_outs_good w c hg ho
   rw [runTurn_t2]
   have hk' : t2K c = some k := by unfold t2K; rw [hs]; exact hk
-  rcases t2Of_good w c s' t.1 t.2 hg' with h0 | ⟨o', qo, hh, qq, h0⟩
+  rcases t2Of_good w c s' t.1 t.2 hg' with h0 | ⟨o', qo, hh, qq, mem', h0⟩
   · rw [h0]; simp [emptyT2]
   · rw [h0, Clem.T2.C11_used_is_take, hk']
     simp only [List.length_take]
